@@ -10,9 +10,11 @@ mkdir -p bin evidence/parts replays
 parts_of() {
   case "$1" in
     C01|C03|C04|C05|C07|C08|C09|C10|C11) echo "pmc" ;;
-    C02|C06|C17|C18|C20) echo "enum" ;;
-    C13|C14|C16) echo "vsched" ;;
-    C12) echo "vsched:runtime enum:api" ;;
+    C02|C06|C18|C20) echo "enum" ;;
+    C17) echo "enum:filter pmc:twoheight" ;;
+    C14|C16) echo "vsched" ;;
+    C13) echo "vsched:runtime pmc:twoheight" ;;
+    C12) echo "vsched:runtime enum:api pmc:protocol" ;;
     C15) echo "enum:registry vsched:runtime" ;;
     C19) echo "enum:formula vsched:races" ;;
     *) echo unknown ;;
